@@ -5,6 +5,22 @@ import json, os, subprocess
 ROOT = os.path.dirname(os.path.dirname(os.path.abspath(__file__)))
 
 CLAIMED = {
+ "C13": dict(
+   text="Reset and the sealed executable as executable Gallina: trees of typed entries with arbitrary names / depths / permission bits, "
+        "`populate` (any history of creations), `remove_contents` (list the names, remove each entry whatever it is) and `reset` (every "
+        "tmpfs mount); io.Reader as the sequence of its Read results (bytes with nil / EOF / error, empty reads), `copy_all` (File.ReadFrom), "
+        "`dup_to_memfd`, and the kernel's answer to every modification attempt under the seal set the code applies.  Theorems: "
+        "C13_remove_contents_empty, C13_reset_empties (all histories, all mounts), C13_memfd_content (exactly the supplied bytes for every "
+        "chunking incl. bytes returned together with EOF, position 0, sealed; no file when the reader fails), C13_memfd_immutable (all "
+        "attempt sequences), C13_rw_bind_not_reset (known finding).  Tie on every run: ~60 pool cycles of hostile programs in a real "
+        "container (000 directories, dangling links, FIFOs, sockets, hard links, hostile names, 20000 entries, chains deeper than PATH_MAX) "
+        "viewed from the host through /proc/<init>/root and by a later program, compared with populate / reset in Coq; ~350 DupToMemfd "
+        "cases (10 reader kinds x sizes around page / buffer boundaries, scripted chunkings, failing readers) with content, position, seals "
+        "and every modification attempt by a holder and by the program executed from the file, scripted ones compared in Coq byte by byte.",
+   note="Partial: the kernel rules (unlinkat semantics for a caller with CAP_DAC_OVERRIDE and CAP_FOWNER, memfd seals) are the model's "
+        "assumptions, exercised on every run and not proved; os.RemoveAll's own recursion is represented by `remove_entry`.  Trusted: Coq kernel + vm_compute.",
+   technique="Coq proof by induction over trees, creation histories and reader protocols + differential runs of Reset and DupToMemfd against the model",
+   design="§5 C13"),
  "C07": dict(
    text="The launch handshake as an LTS in Coq: parent (Start / syncWithChild / handleChildFailed) || child (id-map wait, the phases before the sync "
         "point, the sync read, exec — each may fail) || the socketpair (one FIFO per direction with EOF when the peer's end is closed) || the "
